@@ -233,7 +233,7 @@ def spell(rng, r_km):
         return float(r_km)
     if c < 0.45:
         return "%r" % float(r_km)          # string without unit = km
-    return gm.spell_radius(r_km, rng.choice(UNITS), rng.randrange(5))
+    return gm.spell_radius(r_km, rng.choice(UNITS), rng.randrange(7))
 
 
 # --------------------------------------------------------------------------------------
@@ -1169,7 +1169,7 @@ def run_range(spec, rec):
             for rcls, r_km in gen_radii(rng, fam.oracle, None, 3):
                 if r_km == 0:
                     continue
-                case = dict(base, rcls=rcls, r=gm.spell_radius(r_km, unit, rng.randrange(5)),
+                case = dict(base, rcls=rcls, r=gm.spell_radius(r_km, unit, rng.randrange(7)),
                             shuffle=False, metric=None, tree=None, leaf=None, perm=None,
                             np_seed=None)
                 run_geo_case(rec, case, fam)
